@@ -674,7 +674,7 @@ func (w *World) reached() []string {
 // signIn reads a sign-in redirect: the provider slug in its path and the callback host it names.
 func (w *World) signIn(rs *resp, host string) (slug, rhost string, loc *url.URL) {
 	slug, rhost = "-", "-"
-	if rs.status != 302 {
+	if !world.IsRedirect(rs.status) {
 		return
 	}
 	u, err := url.Parse(rs.header.Get("Location"))
